@@ -172,7 +172,7 @@ def run(chk, args):
             "result:History:ok", "result:GetWithPrefix:ok", "result:Reader.Read:ok", "result:Reader.Read:nomore"]
     rare = ["result:GetBetween:notfound-gap", "result:History:nomore", "result:History:outofrange",
             "result:GetWithPrefix:notfound-first-has-other-prefix", "result:Reader.ReadBetween:ok", "result:HistoryReader.Read:ok",
-            "snapshot:stale-state", "reader:reset-mid-history", "probe:concurrent-reads"]
+            "snapshot:stale-state", "reader:reset-mid-history", "probe:concurrent-reads", "probe2:concurrent-reads"]
     need += ["matrix:cases", "matrix:seek==prefix", "matrix:stored-key==prefix", "matrix:seek==prefix==stored-key,exclusive",
              "matrix:end==prefix", "matrix:end==prefix==stored-key,exclusive", "matrix:seek-proper-prefix-of-prefix",
              "matrix:prefix-proper-prefix-of-seek", "matrix:exclusive-seek-on-stored-key", "matrix:inclusive-seek-on-stored-key",
